@@ -26,7 +26,9 @@ def run(ctx):
         el = xscorr.element(z)
         n = int(rng.choice(ns))
         lo = float(10 ** rng.uniform(-2, 2)); hi = lo * float(10 ** rng.uniform(0.5, 3))
-        arr = np.sort(10 ** rng.uniform(-1, 5, int(rng.choice([1, 3, 4, 9]))))
+        # the caller's array is returned as it is: ascending, descending (a reversed view), or in measurement order
+        arr = 10 ** rng.uniform(-1, 5, int(rng.choice([1, 3, 4, 9])))
+        arr = [np.sort(arr), np.sort(arr)[::-1], arr][z % 3]
         w = float(10 ** rng.uniform(-0.3, 2))
         for fname, vec in (("eixs", lambda e: ebisim.eixs_vec(el, e)), ("rrxs", lambda e: ebisim.rrxs_vec(el, e)), ("drxs", lambda e: ebisim.drxs_vec(el, e, w))):
             for mode in ("none", "pair", "list"):
@@ -39,6 +41,7 @@ def run(ctx):
                     er = float(rng.choice(el.dr_e_res)); top = float(el.dr_e_res.max()); bot = float(el.dr_e_res.min())
                     arr2 = np.array([er, er + 3 * sg, top + 8 * sg, top + 15 * sg, top + 25 * sg, top + 36 * sg, bot - 12 * sg, bot - 30 * sg])
                     arr2 = np.sort(arr2[arr2 > 0])
+                    if z % 2: arr2 = arr2[::-1]
                     if arr2.size > 2:
                         ek = arr2
                 if fname == "drxs":
@@ -117,10 +120,12 @@ def search(ctx):
         r = np.diff(np.log10(es))
         if es.size != k or abs(es[0] - lo) > 1e-12 * lo or abs(es[-1] - hi) > 1e-12 * hi or np.any(r <= 0) or (k > 2 and np.ptp(r) > 1e-9 * r.mean()):
             add("two_limits_logspaced", f"{'rrxs' if z % 2 else 'eixs'}_energyscan(Z={z}, [{lo},{hi}], {k}) is not {k} log-spaced points between the limits (got {es[0]!r} .. {es[-1]!r})", {"Z": z, "lo": lo, "hi": hi, "n": k})
-        arr = np.sort(10 ** rng.uniform(0, 5, 5))
-        es, scan = ebisim.eixs_energyscan(el, arr, 7)
-        if not np.array_equal(es, arr) or not all(np.array_equal(scan[:, c], ebisim.eixs_vec(el, float(arr[c]))) for c in range(arr.size)):
-            add("callers_array", f"eixs_energyscan(Z={z}) does not return the caller's 5-entry array with the vector form per column", {"Z": z})
+        arr = 10 ** rng.uniform(0, 5, 5)          # unsorted: the returned sampling energies are the caller's array, in the caller's order
+        if z % 2: arr = np.sort(arr)[::-1]
+        es, scan = (ebisim.rrxs_energyscan if z % 3 == 0 else ebisim.eixs_energyscan)(el, arr, 7)
+        vecf = ebisim.rrxs_vec if z % 3 == 0 else ebisim.eixs_vec
+        if not np.array_equal(es, arr) or not all(np.array_equal(scan[:, c], vecf(el, float(arr[c]))) for c in range(arr.size)):
+            add("callers_array", f"{'rrxs' if z % 3 == 0 else 'eixs'}_energyscan(Z={z}) does not return the caller's 5-entry array with the vector form per column", {"Z": z})
         if el.dr_e_res.size:
             # every column of a DR scan is the vector form at that energy, also far outside the resonance band
             sg = w / 2.35482
